@@ -202,6 +202,7 @@ def run(ctx):
     # ---- the same search loop on BINARY64 score tables of the real built-in scorers (Model/Generic.v at Model/GenericF.v), bit for bit ----
     from harness import floatstreams
     floatstreams.sbs_float_stream(ctx, ctx.n(30, 200))
+    floatstreams.gcov_many_columns_stream(ctx, "SeededBinarySegmentation(GaussianCovCost)", lambda: __import__("skchange.change_detectors", fromlist=["SeededBinarySegmentation"]).SeededBinarySegmentation(change_score=__import__("skchange.costs", fromlist=["GaussianCovCost"]).GaussianCovCost(), min_segment_length=45), ctx.n(1, 3))
     # the DEFAULT configuration on series of realistic length and width, decided by the property-level twin of the model
     floatstreams.sbs_default_scale_stream(ctx, ctx.n(2, 12))
 
